@@ -25,7 +25,10 @@ UV = "services/keepstore/unix_volume.go"
 
 
 def instrument(ctx, pid):
-    return _instrument(ctx)
+    """Once per check run (both the interleaving and the delayed-write level use the instrumented copy)."""
+    if getattr(ctx, "_c04_inst", None) is None:
+        ctx._c04_inst = _instrument(ctx, tolerant=True)
+    return ctx._c04_inst
 
 
 SCENARIOS = [(p, put, rm) for put in (False, True) for rm in (False, True)
@@ -54,11 +57,31 @@ def race_schedules(ctx):
     return res, None
 
 
+def stratified(rnd, allsch, k):
+    """Sample k schedules so that the flock-contention shapes are all present: a third from the schedules
+    in which Trash (B) gets blocked behind A's flock (mask digit 1: B opened the file, A locked it, B wakes
+    up after A has finished with the path), a third from those in which A gets blocked behind Trash
+    (digit 2), the rest from the schedules without contention.  Empty strata give their share to the others."""
+    strata = [[x for x in allsch if "1" in x[1::2] or "0" in x[1::2]],
+              [x for x in allsch if "2" in x[1::2] and "1" not in x[1::2] and "0" not in x[1::2]],
+              [x for x in allsch if not set(x[1::2]) & set("012")]]
+    strata = [s for s in strata if s]
+    pick = []
+    for j, s in enumerate(strata):
+        share = (k - len(pick)) // (len(strata) - j)
+        pick += s if share >= len(s) else rnd.sample(s, share)
+    chosen = set(pick)
+    rest = [x for x in allsch if x not in chosen]
+    if len(pick) < k and rest:
+        pick += rnd.sample(rest, min(k - len(pick), len(rest)))
+    return pick
+
+
 def stage_i(ctx, per_scenario, suffix="", off=0):
     import json
     import random
     name = "c04i" + suffix
-    inst, err = instrument(ctx, "C04")
+    inst, err, warn = instrument(ctx, "C04")
     sch = None
     if err is None:
         sch, err = race_schedules(ctx)
@@ -76,7 +99,7 @@ def stage_i(ctx, per_scenario, suffix="", off=0):
         k = per_scenario if per_scenario else len(allsch)
         if p == "POldCorrupt" and per_scenario:
             k *= 2
-        pick = allsch if k >= len(allsch) else rnd.sample(allsch, k)
+        pick = allsch if k >= len(allsch) else stratified(rnd, allsch, k)
         chosen += [dict(prior=p, put=put, rm=rm, steps=x) for x in pick]
     jf = os.path.join(ctx.casedir, "sched_" + name + ".json")
     json.dump(chosen, open(jf, "w"))
@@ -86,16 +109,80 @@ def stage_i(ctx, per_scenario, suffix="", off=0):
         st = ctx.stage(name, KS, "main", FILES_I, "TestVerifC04I$", len(chosen), HDR_I, seed_offset=off, shard=150,
                        env={"VERIF_STAGE": name, "VERIF_C04I_SCHEDULES": jf}, timeout=2400, replace=rep)
     st.meta.setdefault("distribution", {})["schedules_enumerated_by_model"] = total
+    if warn:
+        # the instrumented copy lacks a call the model has a step for: the run above looked for a failing
+        # input; the correspondence counts as broken whatever it found
+        st.errors.append(warn)
+    return st
+
+
+FILES_D = ["ks/zz_verif_ks_common_test.go", "ks/zz_verif_ks_hook_test.go", "C04/zz_verif_c04d_test.go"]
+HDR_D = ("From Coq Require Import ZArith NArith List String Bool.\n"
+         "From AV Require Import model.C04_race model.C04_delay model.C04_delay_run.\n"
+         "Import ListNotations.\nLocal Open Scope string_scope.\nLocal Open Scope Z_scope.\n"
+         "Notation case := dcase.\nDefinition failing := dfailing.\n")
+PRIORS = ("PAbsent", "POldGood", "POldCorrupt", "PFreshGood")
+
+
+def delay_labels(ctx):
+    """The yield-point sequence of every (prior, PUT/TOUCH) scenario with the commit phase marked ("!label"),
+    computed by the Coq model (model/C04_delay_run.v scenario_labels)."""
+    import re
+    os.makedirs(ctx.casedir, exist_ok=True)
+    v = os.path.join(ctx.casedir, "labels_c04d.v")
+    body = HDR_D
+    keys = []
+    for p in PRIORS:
+        for put in (True, False):
+            k = len(keys)
+            keys.append("%s/%s" % (p, str(put).lower()))
+            body += "Definition L_%d := Eval vm_compute in scenario_labels %s %s false.\nPrint L_%d.\n" % (k, p, str(put).lower(), k)
+    open(v, "w").write(body)
+    rc, out, _ = core.run(["coqc", "-Q", core.COQ, "AV", os.path.basename(v)], cwd=ctx.casedir, timeout=600)
+    if rc != 0:
+        return None, "coqc failed on the label enumeration of the delayed-write level: " + out[-2000:]
+    res = {}
+    parts = re.split(r"^L_(\d+) =", out, flags=re.M)
+    for k in range(1, len(parts), 2):
+        res[keys[int(parts[k])]] = re.findall(r'"([^"]*)"', parts[k + 1])
+    if len(res) != len(keys) or any(not x for x in res.values()):
+        return None, "could not parse the label enumeration of the delayed-write level"
+    return res, None
+
+
+def stage_d(ctx, n, suffix="", off=0):
+    import json
+    name = "c04d" + suffix
+    inst, err, warn = instrument(ctx, "C04")
+    labels = None
+    if err is None:
+        labels, err = delay_labels(ctx)
+    if err is not None:
+        st = core.Stage(name)
+        st.errors.append(err)
+        ctx.stages.append(st)
+        return st
+    jf = os.path.join(ctx.casedir, "labels_" + name + ".json")
+    json.dump({k.replace("/true", "/true").replace("/false", "/false"): v for k, v in labels.items()}, open(jf, "w"))
+    rep = dict(_replace())
+    rep[UV] = inst
+    with instrumented_overlay():
+        st = ctx.stage(name, KS, "main", FILES_D, "TestVerifC04D$", n, HDR_D, seed_offset=off, shard=40,
+                       env={"VERIF_STAGE": name, "VERIF_C04D_LABELS": jf}, timeout=1500, replace=rep)
+    if warn:
+        st.errors.append(warn)
     return st
 
 
 def run(ctx):
     n = {"quick": 100, "thorough": 1500}[ctx.tier]
+    nd = {"quick": 80, "thorough": 2000}[ctx.tier]
 
     def stages(ctx, mult, suffix, off):
         stage_h(ctx, n * mult, suffix, off)
         stage_i(ctx, 0 if (ctx.tier == "thorough" and not suffix) else 15 * mult, suffix, off)
-    return standard(ctx, "C04", ["model/C04_run.vo", "model/C04_race_run.vo"], stages,
+        stage_d(ctx, nd * mult, suffix, off)
+    return standard(ctx, "C04", ["model/C04_run.vo", "model/C04_race_run.vo", "model/C04_delay_run.vo"], stages,
                     rule="random histories (8-40 requests) of PUT/TOUCH/GET/trash-list/DELETE/untrash/empty-trash on 1-2 Directory volumes, "
                          "time advanced by shifting file times; distinct by hash of the case term; non-trivial = a block was trashed or an untrash was issued",
                     assumptions=["virtual clock: time passes by shifting every mtime and trash deadline backwards by whole seconds; TTL 2 h, every age/deadline comparison kept >= 5 s from its boundary",
@@ -106,8 +193,10 @@ def run(ctx):
 
 
 def dev(ctx, n, extra):
-    core.coq_make(["model/C04_run.vo", "model/C04_race_run.vo"])
-    if extra.get("ONLY") != "I":
+    core.coq_make(["model/C04_run.vo", "model/C04_race_run.vo", "model/C04_delay_run.vo"])
+    if extra.get("ONLY") in (None, "H"):
         stage_h(ctx, n, extra_env=extra)
-    if extra.get("ONLY") != "H":
+    if extra.get("ONLY") in (None, "I"):
         stage_i(ctx, int(extra.get("PER", "6")))
+    if extra.get("ONLY") in (None, "D"):
+        stage_d(ctx, n)
